@@ -16,6 +16,9 @@ def jobs(tier):
     J = []
     J.append(ksjob('ooo_1resp_deadline', SRC, 2, 5, ['NRESP=1', 'YIELD_IN_COMPLETION'], desc='2 callers, 1 response for either caller (or an unknown tag) then the stream fails, blocking header and body reads, '
                    'per-call deadline never / finite falling at any blocking point', stuck_legal=True, timeout=1500, unwind=2, mem_gb=8, exact_unwind=True))
+    if not q:
+        J.append(ksjob('ooo_3callers_1resp', SRC, 3, 8, ['NRESP=1', 'YIELD_IN_COMPLETION'], desc='3 callers, 1 response for any of them (or an unknown tag) then the stream fails, blocking header and body reads, deadlines at any blocking point: a third caller returning while the reader collects for a timed-out follower',
+                       stuck_legal=True, timeout=6000, unwind=2, mem_gb=20, exact_unwind=True))
     if os.environ.get('VERIF_EXPERIMENTAL'):      # 2 responses x 7 slices: never ran to completion in this session
         J.append(ksjob('ooo_2resp', SRC, 2, 7, ['NRESP=2', 'YIELD_IN_COMPLETION'], desc='2 callers, <= 2 responses in any order (own, the other caller\'s, unknown tag), blocking header and body reads, symbolic deadlines',
                        stuck_legal=True, timeout=6000, unwind=3, mem_gb=30, exact_unwind=True))
